@@ -38,6 +38,9 @@ Prim(p) ==
       [] p = "bool"  -> { [t |-> "bool", tf |-> TRUE], [t |-> "bool", tf |-> FALSE] }
       [] p = "float" -> { [t |-> "num", s |-> "1.5"] }
 Scalars == {Null, [t |-> "bool", tf |-> TRUE], [t |-> "int", n |-> "0"], [t |-> "num", s |-> "1.5"]} \cup StrVals
+\* values of a dict in an Any position: what a marker key would need to be taken for the encoder's wrapper
+\* (a type name, valid base64, invalid base64, a non-string) -- kept small, the keys carry the variety
+DictVals == {Null, [t |-> "int", n |-> "0"], Str(TypeName), Str("AAAA"), Str("w")}
 BytesVals == { [t |-> "bytes", b |-> b] : b \in BytesIds }
 BytesIOVals == { [t |-> "bytesio", b |-> b] : b \in BytesIds }
 
@@ -80,7 +83,7 @@ DCVals(c) == IF Mode = "meta" THEN LeafVals ELSE { [t |-> "dcref", i |-> n] : n 
 
 AnyVals(lvl) ==
     Scalars \cup BytesVals \cup { [t |-> "bytesio", b |-> "000000"] } \cup DCVals("")
-    \cup { [t |-> "dict", kv |-> kv] : kv \in KVs(Scalars, Wd(lvl)) }
+    \cup { [t |-> "dict", kv |-> kv] : kv \in KVs(DictVals, Wd(lvl)) }
     \cup { [t |-> "list", xs |-> xs] : xs \in SeqsUpTo(Scalars, Wd(lvl)) }
 
 RECURSIVE W(_, _)
